@@ -266,7 +266,7 @@ def run(ctx):
         txt = open(os.path.join(tlc.SPEC, 'Deadline_quick.cfg')).read().replace('Devs = {}', 'Devs <- ' + dev)
         p = os.path.join(ctx.work, dev + '.cfg')
         open(p, 'w').write(txt)
-        r = tlc.run('MCDeadline', p, ctx.work, workers=8, timeout=600, outname=dev + '.out')
+        r = tlc.run('MCDeadline', p, ctx.work, workers=8, timeout=600, outname=dev + '.out', only=inv)
         if r['violated'] != inv:
             raise tlc.TLCError('Deadline with %s should violate %s, got %s' % (dev, inv, r['violated']))
         sens[dev] = inv
